@@ -22,6 +22,7 @@ Effect(kind) ==
     [] kind = "recv_measure" -> <<0, 0>>     [] kind = "create_rsp" -> <<1, 0>>
     [] kind = "recv_rsp" -> <<0, 1>>         [] kind = "post_keep_then_measure" -> <<1, 2>>
     [] kind = "sequential_in_loop" -> <<2, 2>>
+    [] kind = "create_keep_min_fidelity" -> <<1, 1>>  [] kind = "recv_keep_min_fidelity" -> <<0, 1>>  [] kind = "array_undefine" -> <<0, 0>>
     [] kind = "create_context_refused_body" -> <<1, 2>>  [] kind = "recv_context_refused_body" -> <<0, 2>>
 
 VARIABLES id, k, done, verdict
